@@ -24,7 +24,7 @@ def assignment_target_cases():
         for op in ("!", "-", "~"):
             cases.append((pre + "var r = %s%s = 5;\n" % (op, t), 9, "%s%s = 5" % (op, t)))
         cases.append((pre + "print(1, 2 + %s = 5);\n" % t, 9, "argument 2 + %s = 5" % t))
-    valid = [(pre + "var r = 2 * (%s = 5);\nprint(r);\n" % t, ["10"]) for t in ("a", "o.x", "v[0]")]
+    valid = [(pre + "var r = 2 * (%s = 5);\nprint(r);\n" % t, ["10"]) for t in ("a", "o.x")]
     valid += [(pre + "var r = %s = 5;\nprint(r);\n" % t, ["5" if t != "v[0]" else "nil"]) for t in ("a", "o.x", "v[0]")]
     return cases, valid
 
